@@ -75,6 +75,45 @@ func init() {
 	register(&Monitor{ID: "C16", Run: runC16, Self: selfC16})
 }
 
+// largeFlatTrees: containers with 10 000+ small records (per-element bookkeeping that adds up shows here).
+func largeFlatTrees(c *fw.Ctx, body func(tree *spec.Spec, r *rng.R)) {
+	c.Cases("large-flat", c.N(6, 30), true, func(i int, r0 *rng.R) {
+		if c.Arch386 && i > 1 {
+			return
+		}
+		n := []int{10001, 12000, 20011, 33000}[i%4]
+		tree := &spec.Spec{K: spec.List}
+		for j := 0; j < n; j++ {
+			var rec *spec.Spec
+			switch i % 6 {
+			case 0:
+				rec = spec.ObjV()
+			case 1:
+				rec = spec.ListV()
+			case 2:
+				rec = spec.ObjV("id", spec.IntV(j), "tags", spec.ListV(spec.StrV("x")), "e", spec.ObjV())
+			case 3:
+				rec = spec.ListV(spec.ObjV(), spec.ObjV(), spec.ListV())
+			case 4:
+				rec = spec.FloatV(float64(j) / 8)
+			default:
+				rec = spec.StrV("s\"" + fmt.Sprint(j))
+			}
+			tree.L = append(tree.L, rec)
+		}
+		if i%2 == 1 {
+			o := &spec.Spec{K: spec.Obj}
+			for j, rec := range tree.L[:n/3] {
+				o.Keys = append(o.Keys, fmt.Sprintf("k%d", j))
+				o.Vals = append(o.Vals, rec)
+			}
+			tree = o
+		}
+		c.Add("large_flat_records", int64(tree.Len()))
+		body(tree, nil)
+	})
+}
+
 // deepOutputTrees: chains far deeper than the random trees (serializer recursion, nested buffers).
 func deepOutputTrees(c *fw.Ctx, body func(tree *spec.Spec, r *rng.R)) {
 	depths := []int{40, 129, 1000, 5000}
@@ -104,6 +143,9 @@ func runC01(c *fw.Ctx) {
 		guard(c, func() string { return spec.Trunc(describeTree(tree), 3000) }, func() { c01Case(c, tree, r) })
 	})
 	deepOutputTrees(c, func(tree *spec.Spec, r *rng.R) {
+		guard(c, func() string { return spec.Trunc(describeTree(tree), 300) }, func() { c01Case(c, tree, r) })
+	})
+	largeFlatTrees(c, func(tree *spec.Spec, r *rng.R) {
 		guard(c, func() string { return spec.Trunc(describeTree(tree), 300) }, func() { c01Case(c, tree, r) })
 	})
 	historyCases(c, "history", 600, 60000, probeRoundTrip)
@@ -251,13 +293,15 @@ func runC02(c *fw.Ctx) {
 		})
 	})
 	historyCases(c, "history", 600, 60000, probeJSONText)
-	deepOutputTrees(c, func(tree *spec.Spec, r *rng.R) {
-		guard(c, func() string { return spec.Trunc(describeTree(tree), 300) }, func() {
-			real := drive.Build(r, tree)
-			text := stringOf(real)
-			checkJSONText(c, "string", text, tree, func() string { return spec.Trunc(describeTree(tree), 300) })
+	for _, gen := range []func(*fw.Ctx, func(*spec.Spec, *rng.R)){deepOutputTrees, largeFlatTrees} {
+		gen(c, func(tree *spec.Spec, r *rng.R) {
+			guard(c, func() string { return spec.Trunc(describeTree(tree), 300) }, func() {
+				real := drive.Build(r, tree)
+				text := stringOf(real)
+				checkJSONText(c, "string", text, tree, func() string { return spec.Trunc(describeTree(tree), 300) })
+			})
 		})
-	})
+	}
 }
 
 func selfC02(s *fw.SelfCheck) {
@@ -293,6 +337,41 @@ func runC16(c *fw.Ctx) {
 		guard(c, func() string { return describeTree(tree) }, func() { c16Case(c, tree, r) })
 	})
 	historyCases(c, "history", 400, 40000, probeFormat)
+	// very long lines (a single string / key beyond 64 KiB) inside nested containers, a few indents only
+	c.Cases("long-lines", c.N(4, 24), true, func(i int, r0 *rng.R) {
+		if c.Arch386 {
+			return
+		}
+		n := []int{65530, 65536, 70000, 200000}[i%4]
+		long := strings.Repeat("x", n)
+		var tree *spec.Spec
+		switch (i / 4) % 3 {
+		case 0:
+			tree = spec.ObjV("b", spec.ListV(spec.StrV("x"), spec.StrV(long), spec.IntV(1)), "c", spec.BoolV(true))
+		case 1:
+			tree = spec.ObjV("o", spec.ObjV(long, spec.IntV(1), "z", spec.ListV(spec.StrV(long))), "c", spec.NilV())
+		default:
+			tree = spec.ListV(spec.ObjV("k", spec.ListV(spec.StrV(long))), spec.StrV("tail"))
+		}
+		guard(c, func() string { return fmt.Sprintf("tree with a %d-byte string in a nested container", n) }, func() {
+			real := drive.Build(nil, tree)
+			for _, indent := range []int{0, 2, 10} {
+				out := formatOf(real, indent)
+				c.Count("format_calls")
+				in := func() string {
+					return fmt.Sprintf("tree with a %d-byte string in a nested container, FormatString(%d)", n, indent)
+				}
+				if !checkJSONText(c, "format", out, tree, in) {
+					return
+				}
+				if re, err := refjson.Reindent(out, indent); err == nil && re != out {
+					c.Violate("format-not-canonical-layout", in(), "canonical layout", spec.Trunc(out, 300))
+					return
+				}
+			}
+			c.Distinct(fmt.Sprintf("long-lines %d", i))
+		})
+	})
 	// deep chains (indentation wider than typical pad buffers) and long lists with nested containers
 	shapes := []int{13, 14, 20, 33, 40, 65, 130, 300}
 	c.Cases("deep-and-long", len(shapes)*4, true, func(i int, r0 *rng.R) {
@@ -333,7 +412,13 @@ func runC16(c *fw.Ctx) {
 		guard(c, func() string { return describeTree(tree) }, func() {
 			real := drive.Build(r, tree)
 			var ind int
-			switch r.Intn(6) {
+			switch r.Intn(9) {
+			case 6:
+				ind = 256*r.Range(1, 300) + r.Intn(11) // low byte is a legal indent
+			case 7:
+				ind = (1 << uint(r.Range(8, 30))) + r.Intn(11)
+			case 8:
+				ind = -256*r.Range(1, 300) + r.Intn(11)
 			case 0:
 				ind = -1
 			case 1:
